@@ -150,7 +150,7 @@ class Engine:
         self.stats['solver_checks'] += 1
         t = time.time()
         self.solver.set('timeout', self.timeout_ms if strict else self.feas_timeout_ms)
-        r = self.solver.check(*pc)
+        r = self.solver.check(*pc, *self.axioms)
         self.stats['solver_s'] += time.time() - t
         if r == z3.unknown:
             if strict:
@@ -167,6 +167,20 @@ class Engine:
                 arr = z3.Store(arr, bv(i), z3.BitVecVal(c, 8))
             self.str_consts[key] = Str(arr, bv(0), bv(len(b)), is_str, None, bytes(b))
         return self.str_consts[key]
+
+    def sym_str_elems(self, name, maxlen, utf8=True, minlen=0):
+        """like sym_str but array-free: the buffer is an explicit list of byte variables (short strings; keeps queries in
+        QF_UFBV so that they are bit-blasted)"""
+        elems = [z3.BitVec(f'{name}_b{j}', 8) for j in range(maxlen)]
+        ln = z3.BitVec(name + '_len', 64)
+        cons = [z3.ULE(ln, maxlen)]
+        if minlen:
+            cons.append(z3.UGE(ln, minlen))
+        base = z3.K(BV64, z3.BitVecVal(0, 8))
+        s = Str(base, bv(0), ln, True, maxlen, None, maxlen, elems)
+        if utf8:
+            cons += utf8_wf(s, maxlen)
+        return s, cons
 
     def sym_str(self, name, maxlen=None, utf8=True, minlen=0):
         """Fresh symbolic &str with minlen <= len <= maxlen and (optionally) well-formed UTF-8.
@@ -390,6 +404,16 @@ class Engine:
         return Opaque('zst:' + t)
 
     def eval_path_const(self, st, s):
+        pm = re.search(r'::(promoted\[\d+\])$', s)
+        if pm and st.frames:
+            # a promoted constant always belongs to the function that mentions it
+            fr = st.frames[-1]
+            own = self.funcs.get(fr.fn.crate + '::' + fr.fn.name + '::' + pm.group(1))
+            if own and len(own) == 1:
+                return self.eval_const_fn(own[0], st)
+        cm = getattr(self, 'const_models', {}).get(strip_generics(s))
+        if cm is not None:
+            return cm
         cur = st.frames[-1].fn.crate if st.frames else None
         cands = self.resolve(s, cur, None, st)
         if cands:
@@ -622,6 +646,10 @@ class Engine:
             if ty.endswith('::' + k) or k.endswith('::' + ty):
                 return v
         last = ty.split('::')[-1]
+        # re-exported types are printed through their public path: unique last segment
+        hits = [v for k, v in self.src.enums.items() if k.split('::')[-1] == last]
+        if len(hits) == 1:
+            return hits[0]
         return BUILTIN_ENUMS.get(last)
 
     def lookup_struct(self, ty):
@@ -1078,6 +1106,13 @@ class Engine:
             for full, rec in self._filter_impls(self.impl_methods.get((xl, trl, item), []), raw):
                 for f in self.funcs[full]:
                     if f not in out: out.append(f)
+            if not out and trl is not None:
+                # blanket impls: `impl<F> Trait for F`
+                for (a, b, c), lst in self.impl_methods.items():
+                    if re.fullmatch(r'[A-Z]', a) and b == trl and c == item:
+                        for full, rec in lst:
+                            for f in self.funcs[full]:
+                                if f not in out: out.append(f)
             if trl is None and not out:
                 for (a, b, c), lst in self.impl_methods.items():
                     if a == xl and c == item:
@@ -1251,8 +1286,8 @@ class Engine:
         x, trait = inner[:k].strip(), strip_generics(inner[k + 4:].strip())
         xb = x.lstrip('&')
         if xb.startswith('mut '): xb = xb[4:]
-        if not (re.match(r'^[A-Z]\w*$', xb) or xb.startswith('impl ')):
-            return None
+        if not (re.match(r'^[A-Z]\w*$', xb) or xb.startswith('impl ') or xb.startswith('<')):
+            return None      # not a generic parameter / impl Trait / associated-type projection
 
         class _M:
             def group(self, i): return {2: trait, 3: item}[i]
@@ -1303,6 +1338,14 @@ class Engine:
         if isinstance(fnv, Closure):
             f, a = fnv.fn, [fnv] + list(args)
         elif isinstance(fnv, FnItem):
+            nm = strip_generics(fnv.path)
+            for pat, fn in self.overrides:
+                mm = pat.match(nm)
+                if mm:
+                    outs = fn(self, st, fnv.path, list(args), mm)
+                    if outs is not None:
+                        self.used_models.add('override:' + pat.pattern)
+                        return self._model_outs_to_outcomes(st, outs)
             cur = fnv.crate or (st.frames[-1].fn.crate if st.frames else None)
             f = self.resolve(fnv.path, cur, args, st)
             if f is None and cur is None:
@@ -1320,27 +1363,34 @@ class Engine:
         self.stats['paths'] -= len(outs)
         return [(z3.And(*o.pc[base:]) if len(o.pc) > base else TRUE, o) for o in outs]
 
+    def _model_outs_to_outcomes(self, st, outs):
+        res = []
+        for o in outs:
+            c = z3.simplify(o[0]) if not isinstance(o[0], bool) else z3.BoolVal(o[0])
+            if z3.is_false(c):
+                continue
+            s2 = st.clone()
+            val = o[1]
+            if isinstance(val, Panic):
+                res.append((c, Outcome(s2.pc + [c], 'panic', str(val), s2)))
+            else:
+                if len(o) > 2 and o[2] is not None:
+                    v2 = o[2](s2)
+                    if v2 is not None: val = v2
+                res.append((c, Outcome(s2.pc + [c], 'ret', val, s2)))
+        return res
+
     def call_model_direct(self, st, path, args):
         name = strip_generics(path)
-        for pat, fn in self.models:
-            mm = pat.match(name)
-            if mm:
-                outs = fn(self, st, path, args, mm)
-                if outs is None:
-                    continue
-                self.used_models.add(pat.pattern)
-                res = []
-                for o in outs:
-                    s2 = st.clone()
-                    val = o[1]
-                    if isinstance(val, Panic):
-                        res.append((o[0], Outcome(s2.pc + [o[0]], 'panic', str(val), s2)))
-                    else:
-                        if len(o) > 2 and o[2] is not None:
-                            v2 = o[2](s2)
-                            if v2 is not None: val = v2
-                        res.append((o[0], Outcome(s2.pc + [o[0]], 'ret', val, s2)))
-                return res
+        for nm in (name, generic_slice_name(name)):
+            for pat, fn in self.models:
+                mm = pat.match(nm)
+                if mm:
+                    outs = fn(self, st, path, args, mm)
+                    if outs is None:
+                        continue
+                    self.used_models.add(pat.pattern)
+                    return self._model_outs_to_outcomes(st, outs)
         raise Inconclusive('no model for function value ' + path)
 
 
